@@ -306,6 +306,9 @@ def check_metadata(s, meta, out):
         'symbol_size_3_1': ((size + 2) * 3,) * 2,
         'symbol_size_2_0': (size * 2,) * 2,
         'symbol_size_2.5_default': ((size + 2 * (2 if micro else 4)) * 2.5,) * 2,
+        # (float scales that are not exact in binary: compared with a relative tolerance of 1e-9 below)
+        'symbol_size_2.01_default': ((size + 2 * (2 if micro else 4)) * 2.01,) * 2,
+        'symbol_size_8.19_0': (size * 8.19,) * 2, 'symbol_size_0.333_3': ((size + 6) * 0.333,) * 2,
         # segno.utils called directly with the matrix size
         'u:default_border': 2 if micro else 4, 'u:border_none': 2 if micro else 4, 'u:border_7': 7, 'u:border_0': 0,
         'u:symbol_size_default': (size + 2 * (2 if micro else 4),) * 2, 'u:symbol_size_3_1': ((size + 2) * 3,) * 2,
@@ -313,8 +316,17 @@ def check_metadata(s, meta, out):
     }
     modes = [x['mode'] for x in s.segments]
     want['mode'] = modes[0] if len(modes) == 1 else None
-    bad = {k: (meta.get(k), v) for k, v in want.items() if k in meta and meta.get(k) != v
-           and not ('symbol_size' in k and tuple(meta.get(k)) == v)}
+    def same(k, got, exp):
+        if got == exp:
+            return True
+        if 'symbol_size' in k:
+            try:
+                got = tuple(got)
+                return got == exp or (len(got) == 2 and all(abs(g - e) <= 1e-9 * max(1.0, abs(e)) for g, e in zip(got, exp)))
+            except TypeError:
+                return False
+        return False
+    bad = {k: (meta.get(k), v) for k, v in want.items() if k in meta and not same(k, meta.get(k), v)}
     if bad and s.parse_error is None:
         out.append(('C02', 'metadata', {'reported_vs_matrix': bad}))
     elif bad:
